@@ -27,9 +27,10 @@ add(RAW_T, RAW_STEP, "thorough", 4,
     "RawLRU<u8,u8>: every state with cap = 3 and len <= 3, one operation of the full API", mem=3)
 
 SLRU_STEP = ["C01", "C02", "C03", "C05", "C07", "C12", "C13"]
-add(["h_slru::c11", "h_slru::ctor", "h_slru::c22n22", "h_slru::c22n12", "h_slru::c22n21"], SLRU_STEP, "quick", 3,
+add(["h_slru::c11", "h_slru::ctor", "h_slru::c22n22", "h_slru::c22n12", "h_slru::c22n21", "h_slru::c12n11::look", "h_slru::c12n12::look",
+     "h_slru::c21n11::look", "h_slru::c21n21::look"], SLRU_STEP, "quick", 3,
     "SegmentedCache<u8,u8>: (probationary,protected) caps (1,1) with all 4 occupancies and (2,2) with the three "
-    "fullest occupancies; one operation (Cache trait, put_protected, peek_*/remove_lru_from_*, purge) with symbolic arguments",
+    "fullest occupancies; get/get_mut/peek/contains/remove on the asymmetric caps (1,2) and (2,1) with both segments occupied; one operation (Cache trait, put_protected, peek_*/remove_lru_from_*, purge) with symbolic arguments",
     mem=3, quick_for=["C07"])
 add(["h_slru::c12", "h_slru::c21", "h_slru::c22"], SLRU_STEP, "thorough", 3,
     "SegmentedCache<u8,u8>: all 25 occupancies of caps in {1,2}x{1,2}; one operation with symbolic arguments", mem=3)
@@ -141,7 +142,7 @@ add(fam("wtlfu", ["c211n211", "c211n111", "c211n210", "c121n121", "c121n111", "c
 add(["h_ctor::raw_all_constructors", "h_ctor::sampled_constructors", "h_ctor::tinylfu_ctor_invalid",
      "h_ctor::tinylfu_ctor_valid_grid", "h_ctor::tinylfu_new_usable", "h_ctor::wtinylfu_ctor_sizes",
      "h_ctor::wtinylfu_ctor_ratios", "h_ctor::wtinylfu_new", "h_ctor::twoq_new_sym", "h_ctor::twoq_with_recent_ratio_sym",
-     "h_ctor::twoq_with_ghost_ratio_sym", "h_ctor::twoq_with_2q_parameters_sym", "h_ctor::twoq_builder_sym",
+     "h_ctor::twoq_with_ghost_ratio_sym", "h_ctor::twoq_with_2q_parameters_sym", "h_ctor::twoq_builder_sym", "h_ctor::twoq_builder_hashers_sym", "h_ctor::twoq_builder_hashers_late_sym",
      "h_ctor::conv_n0", "h_ctor::conv_n1", "h_ctor::conv_n2"],
     ["C05", "C01", "C08", "C10", "C11", "C20", "C06"], "quick", 4,
     "constructors/builders: RawLRU (all four, cap full usize), SegmentedCache/AdaptiveCache (sizes <= 3), TwoQueueCache "
@@ -149,24 +150,24 @@ add(["h_ctor::raw_all_constructors", "h_ctor::sampled_constructors", "h_ctor::ti
     "valid class: ratio grid), WTinyLFUCache (grid of zero/non-zero sizes, ratio grid incl. NaN/inf/out-of-range; "
     "new(size<=400)), SampledLFU (all seven); conversions From<[_;N]>/Vec/&[_]/FromIterator with N <= 2", mem=8,
     quick_for=["C05"])
-add(["h_ctor::twoq_with_2q_parameters_sym"], ["C08"], "quick", 4,
-    "TwoQueueCache::with_2q_parameters at sizes 1 and 3 with the recent ratio an arbitrary f64 bit pattern: quota and ghost "
-    "bound == floor(size x ratio)", mem=8)
+add(["h_ctor::twoq_with_2q_parameters_sym", "h_ctor::twoq_builder_hashers_sym", "h_ctor::twoq_builder_hashers_late_sym"], ["C08"], "quick", 4,
+    "TwoQueueCache::with_2q_parameters and the builder with all six setters (hasher setters before and after the ratio "
+    "setters) at sizes 1 and 3 with the recent ratio an arbitrary f64 bit pattern: quota and ghost bound == floor(size x ratio)", mem=8)
 add(["h_ctor::wtinylfu_ctor_sizes"], ["C10"], "quick", 4, "WTinyLFUCache::with_sizes over zero/non-zero sizes: capacities as requested", mem=6)
 add(["h_ctor::tinylfu_ctor_valid_grid", "h_ctor::tinylfu_new_usable"], ["C11"], "quick", 4,
     "TinyLFU::new(size, samples <= 4, ratio grid): shape of a new estimator; first access on sizes 1..3", mem=6)
 add(["h_ctor::twoq_new", "h_ctor::twoq_with_recent_ratio", "h_ctor::twoq_with_ghost_ratio", "h_ctor::twoq_with_2q_parameters",
-     "h_ctor::twoq_builder", "h_ctor::tinylfu_ctor_valid_symbolic_ratio", "h_ctor::conv_n3"],
+     "h_ctor::twoq_builder", "h_ctor::twoq_builder_hashers", "h_ctor::twoq_builder_hashers_late", "h_ctor::tinylfu_ctor_valid_symbolic_ratio", "h_ctor::conv_n3"],
     ["C05", "C08", "C11", "C06"], "thorough", 4,
     "TwoQueueCache constructors over the grid sizes {0,1,2,3,7,100} x ratios {0,1,.25,.5,.999,-0,-.5,1.5,NaN,inf}; "
     "TinyLFU::new with a symbolic ratio in [2^-64,1); conversions with N = 3", mem=8, tmul=2)
 
 # ---- clone / callback / PutResult / borrowed keys / ownership / iterators ---------------------------
-add(["h_misc::clone_raw::id_c2n2", "h_misc::clone_raw::id_c3n3", "h_misc::clone_raw::c2n1", "h_misc::clone_raw::c1n0",
+add(["h_misc::clone_cb::c1n0", "h_misc::clone_cb::c1n1h", "h_misc::clone_cb::c2n2", "h_misc::clone_raw::id_c2n2", "h_misc::clone_raw::id_c3n3", "h_misc::clone_raw::c2n1", "h_misc::clone_raw::c1n0",
      "h_misc::clone_slru_id::c11n11", "h_misc::clone_wt::n100", "h_tlfu::r2l3::clone_step"], ["C16", "C17", "C03"], "quick", 4,
     "clone: RawLRU<u8,u8> cap<=2 (symbolic keys, index iteration order symbolic), WTinyLFUCache (1,1,1) with a symbolic "
     "estimator, TinyLFU arbitrary state; lock-step operation on both, independence, drop of the original", mem=8)
-add(["h_misc::clone_raw::c2n2", "h_misc::clone_raw::c3n2", "h_misc::clone_raw::id_c3n2", "h_misc::clone_wt::n111",
+add(["h_misc::clone_cb::c2n0h", "h_misc::clone_cb::c2n1", "h_misc::clone_raw::c2n2", "h_misc::clone_raw::c3n2", "h_misc::clone_raw::id_c3n2", "h_misc::clone_wt::n111",
      "h_misc::clone_slru_id::c22n22"], ["C16", "C17", "C03"], "thorough", 4,
     "clone: RawLRU cap 3 with 2 entries, WTinyLFUCache (1,1,1) all lists occupied", mem=10, tmul=2)
 add(["h_misc::cb::c1n1", "h_misc::cb::c2n1", "h_misc::cb::c2n2"], ["C15"], "quick", 4,
